@@ -247,6 +247,9 @@ func propC13(c *Ctx, r *Report) {
 	r.Clauses = append(r.Clauses, "loop-aware drivers (E79): a driver that applies a per-block transformation and recurses into loop bodies passes a constant argument in the StmtLoop arm that tells the transformation it is inside a loop")
 	c.runLoopAware(r, "promote.loopaware", inPkgs("dxil/internal/passes", "ir"))
 	r.floor("promote.loopaware", 1)
+	r.Clauses = append(r.Clauses, "no withdrawal during the walk (E80): a walk that drops statements on behalf of the members of a candidate set reaches no function that deletes members from that set")
+	c.runCommitRevoke(r, "commit.revoke", inPkgs("dxil/internal/passes", "ir"))
+	r.floor("commit.revoke", 2)
 	r.Clauses = append(r.Clauses, shallowWalkerClause)
 	c.runShallowWalker(r, "walker.shallow", inPkgs("ir", "dxil"), shallowWalkerExceptions)
 	r.floor("walker.shallow", 10)
